@@ -35,11 +35,16 @@ pub fn gen(tier: &str, seed: u64, out: &mut dyn Write) {
         }
         // every pre-state x a few fonts, with edits
         for pre in 0..6 {
-            for _ in 0..8 {
+            for _ in 0..40 {
                 let rich = rng.below(32) as u32;
                 let load = rng.below(2) as u32;
                 let stores = rng.below(3) as u32;
-                let e = if rng.chance(1, 2) { "di.6e2f652f772e747874.w1,gi.7a7a,ii.6e65772e706e67.p" } else { "" };
+                let e = match rng.below(4) {
+                    0 => "di.6e2f652f772e747874.w1,gi.7a7a,ii.6e65772e706e67.p",
+                    1 => "nl.6578747261,gi.415f62,lk,di.612e747874.w2",
+                    2 => "gr.61,dr.612e747874,ir.69312e706e67,dg.7a",
+                    _ => "",
+                };
                 emit(out, &scratch, &format!("rich={} load={} stores={} sabot=0 kinds=0 pre={} craft=0 e={}", rich, load, stores, pre, e));
             }
         }
